@@ -2,6 +2,7 @@ package props
 
 import (
 	"fmt"
+	"reflect"
 	"go/ast"
 	"go/token"
 	"go/types"
@@ -185,4 +186,133 @@ func c13CountryGuards(c *core.Ctx) {
 		}
 	}
 	c.Ob("C13-R5", "regimes#with-alternative-codes", token.NoPos, nAlt >= 2, fmt.Sprintf("only %d regime definitions with alternative country codes were found (GB and GR expected)", nAlt))
+}
+
+// c13PartiesNormalised — C13-R7: a tax identity is normalised by its party's
+// own Normalize (Party.Normalize → TaxID.Normalize → the regime's identity
+// normaliser), which runs when the party is handed to tax.Normalize — the
+// regime functions alone (normalizers.Each) do not do it. Every *org.Party
+// member of a structure that has a Normalize method is therefore handed to
+// tax.Normalize (or has its Normalize called) in that method, or the owner has
+// no Normalize at all and is itself handed on by its owner; otherwise a valid
+// code written with separators, in lower case or with its country prefix is
+// left as typed there and rejected by validation, while the same text is
+// accepted for the supplier.
+func c13PartiesNormalised(c *core.Ctx) {
+	p := c.P
+	c.Rule("C13-R7", "every party member of a normalised structure goes through its own normalisation", 10)
+	n := 0
+	for _, pk := range p.Pkgs {
+		rel := core.RelPkg(pk.PkgPath)
+		if rel != "bill" && rel != "org" && rel != "pay" {
+			continue
+		}
+		sc := pk.Types.Scope()
+		for _, nm := range sc.Names() {
+			tn, ok := sc.Lookup(nm).(*types.TypeName)
+			if !ok {
+				continue
+			}
+			named, ok := tn.Type().(*types.Named)
+			if !ok {
+				continue
+			}
+			st, ok := named.Underlying().(*types.Struct)
+			if !ok {
+				continue
+			}
+			var parties []*types.Var
+			for i := 0; i < st.NumFields(); i++ {
+				f := st.Field(i)
+				ft := f.Type()
+				if sl, ok := ft.(*types.Slice); ok {
+					ft = sl.Elem()
+				}
+				pt, ok := ft.(*types.Pointer)
+				if !ok {
+					continue
+				}
+				if core.TypeString(pt.Elem()) == "org.Party" {
+					parties = append(parties, f)
+					continue
+				}
+				// a member whose type has its own Normalize(normalizers): it is the way to the parties in it
+				if en, ok := pt.Elem().(*types.Named); ok && core.InModule(en.Obj().Pkg()) {
+					if m, _, _ := types.LookupFieldOrMethod(pt, true, en.Obj().Pkg(), "Normalize"); m != nil {
+						if mf, ok := m.(*types.Func); ok {
+							if sig := mf.Type().(*types.Signature); sig.Params().Len() == 1 && core.TypeString(sig.Params().At(0).Type()) == "tax.Normalizers" {
+								if tag := reflect.StructTag(st.Tag(i)).Get("json"); tag != "" && tag != "-" && holdsParty(en, 0, map[*types.Named]bool{}) {
+									parties = append(parties, f)
+								}
+							}
+						}
+					}
+				}
+			}
+			if len(parties) == 0 {
+				continue
+			}
+			fd := p.Func(rel, nm, "Normalize")
+			for _, f := range parties {
+				n++
+				key := fmt.Sprintf("%s.%s.%s#normalised", rel, nm, f.Name())
+				if fd == nil {
+					c.Ob("C13-R7", key, f.Pos(), false, fmt.Sprintf("%s.%s has no Normalize method: its party %s (and the tax identity in it) is never normalised, so a valid code written with separators, in lower case or with its country prefix is rejected there", rel, nm, f.Name()))
+					continue
+				}
+				info := fd.Pkg.TypesInfo
+				found := false
+				ast.Inspect(fd.Decl.Body, func(nd ast.Node) bool {
+					call, ok := nd.(*ast.CallExpr)
+					if !ok {
+						return true
+					}
+					fn := core.Callee(info, call)
+					if fn == nil {
+						return true
+					}
+					if core.IsFunc(fn, core.ModPath+"/tax", "", "Normalize") && len(call.Args) == 2 && core.FieldOf(info, call.Args[1]) == f {
+						found = true
+					}
+					if fn.Name() == "Normalize" && core.RecvExpr(call) != nil && core.FieldOf(info, core.RecvExpr(call)) == f {
+						found = true
+					}
+					return true
+				})
+				c.Ob("C13-R7", key, fd.Decl.Pos(), found, fmt.Sprintf("%s does not hand %s to tax.Normalize (nor call its Normalize): the party's tax identity is never normalised there — running only the regime functions on it does not call Party.Normalize — so a valid code written with separators, in lower case or with its country prefix is rejected for this party while it is accepted for the supplier", fd.Name(), f.Name()))
+			}
+		}
+	}
+	c.Ob("C13-R7", "party-members#found", token.NoPos, n >= 10, fmt.Sprintf("only %d party members found", n))
+}
+
+// holdsParty: the structure has, directly or in its members, a party or a tax identity.
+func holdsParty(n *types.Named, depth int, seen map[*types.Named]bool) bool {
+	if depth > 3 || seen[n] {
+		return false
+	}
+	seen[n] = true
+	st, ok := n.Underlying().(*types.Struct)
+	if !ok {
+		return false
+	}
+	for i := 0; i < st.NumFields(); i++ {
+		ft := st.Field(i).Type()
+		if sl, ok := ft.(*types.Slice); ok {
+			ft = sl.Elem()
+		}
+		if pt, ok := ft.(*types.Pointer); ok {
+			ft = pt.Elem()
+		}
+		ts := core.TypeString(ft)
+		if ts == "org.Party" || ts == "tax.Identity" {
+			return true
+		}
+		if en, ok := ft.(*types.Named); ok && en.Obj().Pkg() != nil && core.InModule(en.Obj().Pkg()) {
+			if holdsParty(en, depth+1, seen) {
+				return true
+			}
+		}
+	}
+	return false
 }
